@@ -207,8 +207,14 @@ var targetKinds = []string{"child", "child", "child", "nth", "nth", "wild", "wil
 func genTarget(g *jpspec.Gen, r *rand.Rand) jpref.Path {
 	p := jpref.Path{jpspec.Root()}
 	n := 1 + r.Intn(3)
+	if r.Intn(4) == 0 {
+		n = 4 + r.Intn(2) // long enough for two descents with a name after each ($..a..b)
+	}
 	for i := 0; i < n; i++ {
 		f := g.Frag(targetKinds)
+		if n >= 4 && i%2 == 0 && r.Intn(2) == 0 {
+			f = jpspec.Descent()
+		}
 		switch {
 		case f.Kind == "descent" && (i == n-1 || len(p) > 0 && p[len(p)-1].Kind == "descent"):
 			f = jpspec.Wild()
